@@ -76,9 +76,12 @@ class PhaseWorld(World):
                 gates.append([rng.choice(["PHASE", "PHASE", "RZ"]), q, rng.randrange(0, 2 ** (m + 1))])
             for _ in range(rng.randint(0, 3)):
                 r = rng.random()
-                if r < 0.4 and ns >= 2:
+                if r < 0.3 and ns >= 2:
                     a, b = rng.sample(range(ns), 2)
                     gates.append(["CPHASE", a, b, rng.randrange(0, 2 ** m)])
+                elif r < 0.65:
+                    # a further rotation on an already rotated qubit (successive rotations whose angles add up beyond 2*pi)
+                    gates.append([rng.choice(["PHASE", "RZ", "RZ"]), rng.randrange(ns), rng.randrange(0, 2 ** (m + 1))])
                 else:        # (S / T are not generated: their controlled forms CS / CT are refused by the cirq translator)
                     gates.append(["Z", rng.randrange(ns)])
             rng.shuffle(gates)
@@ -87,6 +90,9 @@ class PhaseWorld(World):
         # coefficients are integer multiples of 2*pi/2^m; every state qubit carries a non-zero one-body coefficient
         axes = [rng.choice("ZZZXY") if kind == "commuting" else "Z" for _ in range(ns)]
         one = [rng.randrange(1, 2 ** m) for _ in range(ns)]
+        for q in range(ns - 1):
+            if rng.random() < 0.25:
+                one[q] = 0          # gap in the support of H below its highest qubit (an idle state qubit, possibly set to 1)
         two = []
         for _ in range(rng.randint(0, 2)):
             if ns >= 2:
@@ -180,8 +186,10 @@ class PhaseWorld(World):
         if prob["const"]:
             terms[()] = 2 * PI * prob["const"] / N
         terms = {t: c for t, c in terms.items() if abs(c) > 1e-12 or not t}
-        if any(((q + off, axes[q]),) not in terms for q in range(ns)):
-            return None
+        if ((ns - 1 + off, axes[ns - 1]),) not in terms:
+            return None              # the highest state qubit must carry a term (the register is placed right above the operator's width)
+        if any(((q + off, axes[q]),) not in terms and not any(q in (a, b) for a, b, _ in prob["two"]) for q in range(ns)):
+            self.ctx.probe("C20.hamiltonian_support_with_gap")
         H.terms = dict(terms)
         ref_gates = []
         for q in range(ns):
